@@ -421,6 +421,16 @@ func c14TwoModules(chk *fw.Check) int {
 				chk.Violation("C14|stale-hit|two-modules|"+sig, "the instance with default_cache_duration 0 accepted the certificate after the responder had flipped to revoked", nil)
 			}
 			revoked = false
+			// what the 1h instance has cached is nothing to the zero-duration instance: the 1h instance obtains a status for
+			// a third certificate, the responder flips, the zero-duration instance is asked about that certificate
+			lc := world.Leaf(p.CA, bi(5102), nil, []string{c14URLA})
+			hour.Handshake(world.Chain(lc, p.CA, p.Root))
+			revoked = true
+			before := len(net.Hits)
+			if v := zero.Handshake(world.Chain(lc, p.CA, p.Root)); !v.Rejected() || len(net.Hits) == before {
+				chk.Violation("C14|hit-with-zero-lifetime|two-modules-status-cached-by-the-other-instance|"+sig, fmt.Sprintf("the instance with default_cache_duration 0 answered %s with %d request(s) for a certificate whose status the 1h instance had cached before the responder flipped to revoked", v, len(net.Hits)-before), nil)
+			}
+			revoked = false
 			// the 1h instance: second handshake of another certificate is a hit
 			net.ResetHits()
 			hour.Handshake(world.Chain(lb, p.CA, p.Root))
